@@ -4,6 +4,7 @@ import (
 	"encoding/json"
 	"errors"
 	"fmt"
+	"unicode/utf8"
 
 	"github.com/libp2p/go-libp2p/core/crypto"
 	"github.com/libp2p/go-libp2p/core/peer"
@@ -59,6 +60,13 @@ func (r *IngestRequest) MarshalRecord() ([]byte, error) {
 
 // MakeIngestRequest creates a signed IngestRequest and marshals it into bytes
 func MakeIngestRequest(providerID peer.ID, privateKey crypto.PrivKey, m multihash.Multihash, contextID []byte, metadata []byte, addrs []string) ([]byte, error) {
+	// The request is sealed as JSON, which replaces what is not valid UTF-8
+	// in a string: such an address would be read back as another one.
+	for _, a := range addrs {
+		if !utf8.ValidString(a) {
+			return nil, fmt.Errorf("address is not valid UTF-8: %q", a)
+		}
+	}
 	req := &IngestRequest{
 		Multihash:  m,
 		ProviderID: providerID,
